@@ -123,6 +123,25 @@ def oracle(res, cux, ComplexS, s, rng):
                               'turns=1: %r' % (d1,), 'one forced rotation; join=True gives the joined list form')
         except Exception as e:
             res.violation('rotation-generators:turns-argument-raises:' + type(e).__name__, {'op': ['rotpt', s]}, type(e).__name__, 'one forced rotation')
+    if ok and len(s) <= 26:
+        # the same complex described by STRINGS (one letter per position): str inputs, joined and list output forms
+        letters = ''.join('+' if ch == '+' else chr(97 + i) for i, ch in enumerate(s))
+        try:
+            base = [(''.join(a), ''.join(b)) for a, b in cux.rotate_complex_db(list(letters), list(s))]
+            forms = {'str,join': [(a, b) for a, b in cux.rotate_complex_db(letters, s, join=True)],
+                     'str,list': [(''.join(a), ''.join(b)) for a, b in cux.rotate_complex_db(letters, s)],
+                     'list,join': [(a, b) for a, b in cux.rotate_complex_db(list(letters), list(s), join=True)]}
+            want = [(''.join('+' if x == '+' else x for x in cux.strand_table_to_sequence([list(y) for y in a])),
+                     ''.join(cux.pair_table_to_dot_bracket(b))) for a, b in
+                    cux.rotate_complex_pt([list(x) for x in letters.split('+')], cux.make_pair_table(s))]
+            res.count('string_form_checked')
+            for nm, got in forms.items():
+                if got != base or got != want:
+                    res.violation('rotate_complex_db:string-form:' + nm, {'op': ['rotdb.str', letters, s]}, repr(got)[:200],
+                                  'the same rotations in the same order as the list form and as rotate_complex_pt: %r' % (want,))
+                    break
+        except Exception as e:
+            res.violation('rotate_complex_db:string-form:raises:' + type(e).__name__, {'op': ['rotdb.str', letters, s]}, type(e).__name__, 'the rotations')
     if not ok:
         res.violation('rotation-generators:disagree', {'op': ['rotpt', s]},
                       'pt=%d db=%d entries' % (len(ptrots), len(dbrots)), 'n rotations starting with the current one; db[k] = once^((n-k) mod n)')
